@@ -1,9 +1,11 @@
-\* non-vacuity: shipped finish() must violate Prop_C18
+\* non-vacuity: with deviation F12 (the shipped code) TLC must report Prop_C18 violated
+\* (the check generates its cfgs from families/transactions.py:TIERS; this file mirrors one of them for manual runs:
+\*  tlc -deadlock -config MC_Transactions_devF12.cfg Transactions)
 CONSTANTS
   Kinds = {"base", "retry", "timed"}
-  RCs = {0,1}
+  RCs = {0, 1}
   RDs = {1}
-  TOs = {0,1}
+  TOs = {0, 1}
   MaxOps = 2
   CbMayFail = TRUE
   Devs = {"F12"}
@@ -11,6 +13,4 @@ CONSTANTS
   Emit = "none"
 INIT Init
 NEXT Next
-INVARIANT TypeOK
 INVARIANT Prop_C18
-INVARIANT Prop_C19
